@@ -169,7 +169,7 @@ def gen_net(rng, idx, profile):
     menu = {
         "conv": ["conv", "conv", "conv1x1", "dwconv", "maxpool", "avgpool_valid", "relu", "fc_end", "tconv", "fc_batch"],
         "elementwise": ["add_self", "add_skip", "mul_const", "sub_const", "add_const", "minmax", "relu", "lrelu", "quantize",
-                        "conv1x1", "mul_skip", "hswish", "add_const"],
+                        "conv1x1", "mul_skip", "hswish", "add_const", "sqdiff"],
         "memory": ["concat", "split_concat", "slice", "pad_conv", "reshape_back", "conv1x1", "relu", "maxpool", "pad", "squeeze_expand",
                    "transpose"],
         "cascade": ["conv", "conv", "dwconv", "maxpool", "avgpool_valid", "conv1x1", "add_skip", "relu"],
@@ -240,6 +240,17 @@ def gen_net(rng, idx, profile):
                 _same_quant(b, new, cur)
         elif kind == "quantize":
             new = b.quantize(cur)
+        elif kind == "sqdiff" and xt.dtype != "uint8":
+            if rng.random() < 0.5:
+                cands = [t for t in live if b.t(t).shape == xt.shape and b.t(t).dtype == xt.dtype]
+                other = rng.choice(cands)
+            else:
+                r = np.random.RandomState(rng.getrandbits(32))
+                lo, hi = netgen._qrange(xt.dtype)
+                shp = rng.choice([[1, 1, 1, cc], list(xt.shape)])
+                other = b.const(shp, xt.dtype, r.randint(lo, hi + 1, int(np.prod(shp))), [netgen.rand_scale(rng)], [netgen.rand_zp(rng, xt.dtype)])
+            new = b.fm(list(xt.shape), xt.dtype, scale=float(np.float32(rng.choice([0.05, 0.5, 1.0, 4.0]) * rng.uniform(0.5, 1.0))))
+            b.net.ops.append(netgen.Op("SQUARED_DIFFERENCE", [cur, other], [new], ("SquaredDifferenceOptions", {})))
         elif kind == "hswish" and xt.dtype != "int16":
             new = b.unary("HARD_SWISH", cur)
         elif kind == "transpose" and xt.dtype != "int16":
@@ -342,9 +353,10 @@ def gen_net(rng, idx, profile):
             new = b.pool(cur, "AVERAGE_POOL_2D", k, rng.choice([(1, 1), (2, 2)]), "SAME")
         elif which == "mean":
             ct = b.t(cur)
-            axes, keep = rng.choice([([1, 2], True), ([1, 2], True), ([1, 2], False), ([1], True), ([2], True)])
+            axes, keep = rng.choice([([1, 2], True), ([1, 2], True), ([1, 2], False), ([1], True), ([2], True)] +
+                                    ([([3], True), ([3], False)] if 1 in (hh, ww) else []))
             ax = b.const([len(axes)], "int32", axes, name=b.fresh("axes"))
-            oshape = [d for i, d in enumerate([1, 1 if 1 in axes else hh, 1 if 2 in axes else ww, cc]) if keep or i not in axes]
+            oshape = [d for i, d in enumerate([1, 1 if 1 in axes else hh, 1 if 2 in axes else ww, 1 if 3 in axes else cc]) if keep or i not in axes]
             same = rng.random() < 0.3
             new = b.fm(oshape, ct.dtype, scale=ct.scales[0] if same else None, zp=ct.zps[0] if same else None)
             b.net.ops.append(netgen.Op("MEAN", [cur, ax], [new], ("ReducerOptions", dict(KeepDims=keep))))
